@@ -28,6 +28,13 @@ func init() {
 		"slices.Concat":                         slicesConcat,
 		"bytes.Equal":                           bytesEqual,
 		"errors.New":                            newError,
+		"(io/fs.DirEntry).Name":                 entryName,
+		"(os.DirEntry).Name":                    entryName,
+		"strings.ReplaceAll":                    replaceAll,
+		"(*golang.org/x/text/encoding.Encoder).String": encoderString,
+		"os.IsNotExist":                         errPredicate,
+		"os.IsExist":                            errPredicate,
+		"errors.Is":                             errPredicate,
 		"fmt.Errorf":                            newError,
 		"sort.Ints":                             sortInts,
 		"math/big.NewInt":                       bigNewInt,
@@ -292,11 +299,11 @@ func newError(x *Exec, fr *frame, ins ssa.CallInstruction, c *ssa.CallCommon, ar
 var noEffectPrefixes = []string{
 	"(*log/slog.Logger).", "log/slog.", "fmt.Sprint", "fmt.Errorf", "errors.", "strings.", "bytes.", "path.", "path/filepath.Join",
 	"path/filepath.Base", "path/filepath.Dir", "path/filepath.Clean", "path/filepath.Ext", "time.Now", "(time.Time).", "time.Since", "os.IsNotExist", "os.IsExist",
-	"(io/fs.FileMode).", "(io/fs.FileInfo).", "(os.FileInfo).", "math/big.NewInt", "(*math/big.Int).Bit", "(*math/big.Int).Int64",
+	"(io/fs.FileMode).", "(io/fs.FileInfo).", "(os.FileInfo).", "(os.DirEntry).", "(os.FileMode).", "math/big.NewInt", "(*math/big.Int).Bit", "(*math/big.Int).Int64",
 	"strconv.", "unicode", "slices.", "sort.", "cmp.", "encoding/binary.", "(encoding/binary.", "math/rand.", "(*golang.org/x/text/encoding.Encoder).String",
 	"(*golang.org/x/text/encoding.Decoder).String", "golang.org/x/crypto/bcrypt.", "time.Sleep", "(*sync.Mutex).", "(*sync.RWMutex).",
 	"hotline.HashAndSalt", "(*sync/atomic.", "(error).Error", "io.ReadAll", "(*math/big.Int).SetBit", "(io/fs.DirEntry).", "encoding/hex.",
-	"regexp.", "(*regexp.Regexp).", "gopkg.in/yaml.v3.Marshal", "(hotline.FileStore).", "os.WriteFile", "os.Rename", "os.Remove", "os.RemoveAll", "os.Mkdir", "os.MkdirAll",
+	"regexp.", "(*regexp.Regexp).", "(*bufio.Scanner).", "bufio.NewScanner", "gopkg.in/yaml.v3.Marshal", "(hotline.FileStore).", "os.WriteFile", "os.Rename", "os.Remove", "os.RemoveAll", "os.Mkdir", "os.MkdirAll",
 	"os.Stat", "os.Lstat", "os.Open", "os.OpenFile", "os.ReadFile", "os.ReadDir", "os.Symlink", "os.Readlink", "(*os.File).", "os.Create", "path/filepath.", "mime.", "unicode/utf8.", "(time.Duration).", "fmt.Fprint", "os.Getenv", "net.SplitHostPort",
 }
 
@@ -391,4 +398,47 @@ func mutatingClass(c string) bool {
 		return false
 	}
 	return true
+}
+
+
+// os.IsNotExist(err), os.IsExist(err), errors.Is(err, target): an uninterpreted predicate of the
+// error(s) that holds only of a non-nil error (errors.Is: unless the target itself is nil).
+func errPredicate(x *Exec, fr *frame, ins ssa.CallInstruction, c *ssa.CallCommon, args []Val, st *State, r string) (Val, string) {
+	name := x.calleeName(c)
+	used(name + "(err, ...): a pure predicate; true only if err != nil (or, for errors.Is, the target is nil too)")
+	res := x.pureCall(name, c.Signature().Results(), args, st, r)
+	nonnil := not(eq(args[0][0].T, "0"))
+	if len(args) > 1 {
+		nonnil = or(nonnil, eq(args[1][0].T, "0"))
+	}
+	x.vc.S.fact(r, implies(res[0].T, nonnil))
+	return res, r
+}
+
+
+// (fs.DirEntry).Name(): the name of a directory entry: non-empty, at most NAME_MAX (255) bytes.
+func entryName(x *Exec, fr *frame, ins ssa.CallInstruction, c *ssa.CallCommon, args []Val, st *State, r string) (Val, string) {
+	used("(fs.DirEntry).Name(): a pure getter; the name is 1..255 bytes long (NAME_MAX)")
+	res := x.pureCall("(io/fs.DirEntry).Name", c.Signature().Results(), args, st, r)
+	x.vc.S.fact(r, and(sx("<=", "1", sx("strlen", res[0].T)), sx("<=", sx("strlen", res[0].T), "255")))
+	return res, r
+}
+
+// strings.ReplaceAll(s, old, new): a pure function; not longer than s when new is not longer than old.
+func replaceAll(x *Exec, fr *frame, ins ssa.CallInstruction, c *ssa.CallCommon, args []Val, st *State, r string) (Val, string) {
+	used("strings.ReplaceAll(s, old, new): pure; len(result) <= len(s) when len(new) <= len(old)")
+	res := x.pureCall("strings.ReplaceAll", c.Signature().Results(), args, st, r)
+	ln := func(v Val) string { return sx("strlen", v[0].T) }
+	x.vc.S.fact(r, sx("<=", "0", ln(res)))
+	x.vc.S.fact(r, implies(sx("<=", ln(args[2]), ln(args[1])), sx("<=", ln(res), ln(args[0]))))
+	return res, r
+}
+
+// (*encoding.Encoder).String(s): for a single-byte character map the output has one byte per input
+// rune, hence is not longer than the UTF-8 input.
+func encoderString(x *Exec, fr *frame, ins ssa.CallInstruction, c *ssa.CallCommon, args []Val, st *State, r string) (Val, string) {
+	used("(*encoding.Encoder).String(s) of a single-byte charmap: (r, nil) with len(r) <= len(s), or an error")
+	res := x.havocCall("(*golang.org/x/text/encoding.Encoder).String", c.Signature().Results(), args, c.Args, st, r)
+	x.vc.S.fact(r, and(sx("<=", "0", sx("strlen", res[0].T)), implies(eq(res[1].T, "0"), sx("<=", sx("strlen", res[0].T), sx("strlen", args[1][0].T)))))
+	return res, r
 }
